@@ -1,63 +1,20 @@
-(* C04 proofs, part 5: corollaries of the simulation theorem with purely syntactic hypotheses. *)
+(* C04 proofs, part 6: corollaries of the simulation theorem with purely syntactic hypotheses. *)
 From Coq Require Import ZArith List Bool Lia.
-From TV Require Import Model.Persist Proof.Persist Proof.PersistSim Proof.PersistWit.
+From TV Require Import Model.Persist Proof.Persist Proof.PersistRel Proof.PersistSim Proof.PersistWit.
 Import ListNotations.
 Open Scope Z_scope.
 
-(* no INSERT after a close/drop + open *)
-Fixpoint no_ins_after (ro : bool) (h : list op) : bool :=
-  match h with
-  | [] => true
-  | o :: t => if is_reopen o then no_ins_after true t
-              else if insb o then negb ro && no_ins_after ro t
-              else no_ins_after ro t
-  end.
 (* interruptions that never replay the WAL: Database::checkpoint() and close() + open *)
 Definition no_replay (o : op) : bool := match o with ReopenDrop | CkptPragma | AutoCkpt => false | _ => true end.
 (* the WAL is never switched on *)
 Definition no_wal_on (o : op) : bool := match o with SetWal true => false | _ => true end.
 
-(* ---- class 1 cannot be hit *)
-Lemma k1_no_ins_after : forall h oa a b c ro,
-  no_ins_after ro h = true -> (k_ro a = true -> ro = true) -> k_c1 a = false ->
-  k_c1 (fst (fst (kscan a b c h oa))) = false.
-Proof.
-  induction h as [|o h IH]; intros oa a b c ro HN HR HC; [exact HC|].
-  destruct oa as [|x oa]; [exact HC|]. cbn [kscan]. cbn [no_ins_after] in HN.
-  destruct a as [i r c1]. cbn in HR, HC. subst c1.
-  destruct (is_reopen o) eqn:RO.
-  - apply (IH oa _ _ _ true HN); destruct o; cbn in *; try discriminate; auto.
-  - destruct (insb o) eqn:IB.
-    + apply andb_true_iff in HN. destruct HN as [HN1 HN]. apply negb_true_iff in HN1. subst ro.
-      assert (r = false) as -> by (destruct r; [specialize (HR eq_refl); discriminate | reflexivity]).
-      apply (IH oa _ _ _ false HN); destruct o; cbn in *; try discriminate; auto.
-    + apply (IH oa _ _ _ ro HN); destruct o; cbn in *; try discriminate; auto.
-Qed.
-
-(* ---- class 3 cannot be hit inside the modelled language *)
-Lemma k3_no_recreate : forall h oa a b c dropped,
-  no_recreate dropped h = true -> (forall t, k_dropped c t = true -> existsb (Z.eqb t) dropped = true) ->
-  k_recreated c = false -> k_recreated (snd (kscan a b c h oa)) = false.
-Proof.
-  induction h as [|o h IH]; intros oa a b c dropped HN HD HC; [exact HC|].
-  destruct oa as [|x oa]; [exact HC|]. cbn [kscan].
-  destruct c as [d r p]. cbn in HD, HC. subst r.
-  destruct o; cbn [no_recreate k3_step] in *; try (apply (IH oa _ _ _ dropped HN); cbn; auto; fail).
-  - (* Create *)
-    apply andb_true_iff in HN. destruct HN as [HN1 HN]. apply negb_true_iff in HN1.
-    apply (IH oa _ _ _ dropped HN); cbn; auto.
-    destruct (d t) eqn:E; [rewrite (HD t E) in HN1; discriminate | reflexivity].
-  - (* DropT *)
-    apply (IH oa _ _ _ (t :: dropped) HN); cbn; auto.
-    intros u. cbn [existsb]. unfold upd. destruct (u =? t); [intros _; reflexivity | intros H; cbn [orb]; apply HD, H].
-Qed.
-
-(* ---- class 2 cannot be hit when nothing replays the WAL ... *)
-Lemma k2_no_replay : forall h oa a b c,
+(* ---- the class cannot be hit when nothing replays the WAL ... *)
+Lemma k2_no_replay : forall h oa b,
   forallb no_replay h = true -> forallb op_in_lang h = true -> k_c2 b = false ->
-  k_c2 (snd (fst (kscan a b c h oa))) = false.
+  k_c2 (kscan b h oa) = false.
 Proof.
-  induction h as [|o h IH]; intros oa a b c HN HL HC; [exact HC|].
+  induction h as [|o h IH]; intros oa b HN HL HC; [exact HC|].
   destruct oa as [|x oa]; [exact HC|]. cbn [kscan]. cbn [forallb] in HN, HL.
   apply andb_true_iff in HN. destruct HN as [HN1 HN]. apply andb_true_iff in HL. destruct HL as [HL1 HL].
   apply IH; auto.
@@ -69,12 +26,12 @@ Proof.
 Qed.
 
 (* ... or when the WAL is never on (no image is ever logged) *)
-Lemma k2_no_wal : forall h oa a b c,
+Lemma k2_no_wal : forall h oa b,
   forallb no_wal_on h = true -> forallb op_in_lang h = true ->
   k_wal b = false -> (forall t, k_lg b t = false) -> k_c2 b = false ->
-  k_c2 (snd (fst (kscan a b c h oa))) = false.
+  k_c2 (kscan b h oa) = false.
 Proof.
-  induction h as [|o h IH]; intros oa a b c HN HL HW HG HC; [exact HC|].
+  induction h as [|o h IH]; intros oa b HN HL HW HG HC; [exact HC|].
   destruct oa as [|x oa]; [exact HC|]. cbn [kscan]. cbn [forallb] in HN, HL.
   apply andb_true_iff in HN. destruct HN as [HN1 HN]. apply andb_true_iff in HL. destruct HL as [HL1 HL].
   assert (stale_any b = false) as HS.
@@ -92,48 +49,34 @@ Proof.
     try (unfold stale_any in *; cbn [k_lg k_st] in *; rewrite HS; auto).
 Qed.
 
-Lemma class_zero_of_parts : forall a b c, k_c1 a = false -> k_c2 b = false -> k_recreated c = false -> kclass (a, b, c) = 0.
-Proof. intros a b c H1 H2 H3. unfold kclass. now rewrite H1, H2, H3. Qed.
-
-Lemma kscan_eta : forall a b c h oa,
-  kscan a b c h oa = (fst (fst (kscan a b c h oa)), snd (fst (kscan a b c h oa)), snd (kscan a b c h oa)).
-Proof. intros. now destruct (kscan a b c h oa) as [[x y] z]. Qed.
-
-(* close() + open and Database::checkpoint() at arbitrary points, as long as no INSERT follows a reopen *)
+(* close() + open and Database::checkpoint() at arbitrary points: no restriction *)
 Lemma close_reopen_id_l : forall wal h,
-  in_lang h = true -> forallb no_replay h = true -> no_ins_after false h = true ->
+  in_lang h = true -> forallb no_replay h = true ->
   oracle h (run true (init wal) h) (run false (init wal) h) = true.
 Proof.
-  intros wal h HL HR HN. apply persist_observational_id_l; [exact HL|].
-  unfold in_lang in HL. apply andb_true_iff in HL. destruct HL as [HL HC].
-  unfold known_class_of. rewrite kscan_eta. apply class_zero_of_parts.
-  - apply (k1_no_ins_after h _ _ _ _ false HN); cbn; auto; try discriminate.
-  - apply k2_no_replay; auto.
-  - apply (k3_no_recreate h _ _ _ _ [] HC); cbn; auto; try discriminate.
+  intros wal h HL HR. apply persist_observational_id_l; [exact HL|].
+  unfold known_class_of. apply kclass_zero_intro. apply k2_no_replay; auto.
 Qed.
 
-(* all four interruptions at arbitrary points with the WAL never enabled, as long as no INSERT follows a reopen *)
+(* all four interruptions at arbitrary points with the WAL never enabled: no restriction *)
 Lemma no_wal_id_l : forall h,
-  in_lang h = true -> forallb no_wal_on h = true -> no_ins_after false h = true ->
+  in_lang h = true -> forallb no_wal_on h = true ->
   oracle h (run true (init false) h) (run false (init false) h) = true.
 Proof.
-  intros h HL HW HN. apply persist_observational_id_l; [exact HL|].
-  unfold in_lang in HL. apply andb_true_iff in HL. destruct HL as [HL HC].
-  unfold known_class_of. rewrite kscan_eta. apply class_zero_of_parts.
-  - apply (k1_no_ins_after h _ _ _ _ false HN); cbn; auto; try discriminate.
-  - apply k2_no_wal; auto.
-  - apply (k3_no_recreate h _ _ _ _ [] HC); cbn; auto; try discriminate.
+  intros h HL HW. apply persist_observational_id_l; [exact HL|].
+  unfold known_class_of. apply kclass_zero_intro. apply k2_no_wal; auto.
 Qed.
 
-(* non-vacuity of the two corollaries *)
+(* non-vacuity of the two corollaries (INSERTs after the reopens, a table dropped and re-created) *)
 Definition cor1 : list op :=
   [SetWal true; Create 0 2; Ins 0 [(None, 10); (None, 11)]; SetWal false; Ins 0 [(None, 12)]; CkptApi; ReopenClose;
-   Del 0 11; CkptApi; Upd 0 12 13; ReopenClose; Query].
+   Del 0 11; Ins 0 [(None, 13); (Some 1, 14)]; CkptApi; Upd 0 12 15; ReopenClose; Ins 0 [(None, 16)]; Query].
 Definition cor2 : list op :=
-  [Create 1 1; Ins 1 [(Some 1, 10); (Some 2, 11)]; CkptPragma; Del 1 10; ReopenDrop; Query; CkptApi; ReopenClose; Upd 1 11 12; CkptPragma; Query].
+  [Create 1 1; Ins 1 [(Some 1, 10); (Some 2, 11)]; CkptPragma; Del 1 10; ReopenDrop; Ins 1 [(Some 3, 12)]; Query; CkptApi;
+   DropT 1; Create 1 0; ReopenClose; Ins 1 [(None, 13)]; CkptPragma; Query].
 Lemma cor_witness :
-  in_lang cor1 = true /\ forallb no_replay cor1 = true /\ no_ins_after false cor1 = true
-  /\ in_lang cor2 = true /\ forallb no_wal_on cor2 = true /\ no_ins_after false cor2 = true
-  /\ nth_error (run true (init false) cor2) 10
-     = Some (OQ [TAbsent; TPresent [[Some 2; Some 12]] (Some 1) [[]; [[Some 2; Some 12]]; []; []; []; []; []; []]; TAbsent]).
+  in_lang cor1 = true /\ forallb no_replay cor1 = true
+  /\ in_lang cor2 = true /\ forallb no_wal_on cor2 = true
+  /\ nth_error (run true (init false) cor2) 13
+     = Some (OQ [TAbsent; TPresent [[None; Some 13]] (Some 1) [[]; []; []; []; []; []; []; []]; TAbsent]).
 Proof. vm_compute. repeat split. Qed.
